@@ -361,7 +361,7 @@ impl ChunkInfo {
         Self {
             // Safe cast: BLTE chunks are limited to reasonable sizes
             compressed_size: compressed.len() as u32,
-            decompressed_size: chunk.decompressed_size() as u32,
+            decompressed_size: chunk.measured_decompressed_size() as u32,
             checksum,
             decompressed_checksum: None,
         }
@@ -384,7 +384,7 @@ impl ChunkInfo {
         Self {
             // Safe cast: BLTE chunks are limited to reasonable sizes
             compressed_size: compressed.len() as u32,
-            decompressed_size: chunk.decompressed_size() as u32,
+            decompressed_size: chunk.measured_decompressed_size() as u32,
             checksum,
             decompressed_checksum,
         }
